@@ -92,7 +92,14 @@ fn render_acl_spec(entries: &[AclSpecFull]) -> String {
     format!("{v:?}")
 }
 
+fn render_groups(rows: &[GroupRow]) -> String {
+    let v: Vec<(u16, &str, &[u16])> = rows.iter().map(|r| (r.group_id, r.name.as_str(), r.endpoints.as_slice())).collect();
+    format!("{v:?}")
+}
+
 struct Extra {
+    /// the group table of every fabric
+    groups: BTreeMap<u8, Vec<GroupRow>>,
     /// (fabric index, peer node id) of every CASE resumption record
     resumption: Vec<(u8, u64)>,
     /// the subscription table
@@ -138,6 +145,8 @@ fn view_of(matter: &Matter<'_>, networks: &Option<Vec<u8>>, network_ids: &[Vec<u
             v.insert(format!("fab/{i}/keysets"), format!("{ks:?}"));
             let km: Vec<(u16, u16)> = g.key_map_iter().map(|m| (m.group_id, m.group_key_set_id)).collect();
             v.insert(format!("fab/{i}/keymap"), format!("{km:?}"));
+            let rows: Vec<GroupRow> = g.iter().map(|r| GroupRow { group_id: r.group_id, name: r.group_name.to_string(), endpoints: r.endpoints.iter().copied().collect() }).collect();
+            v.insert(format!("fab/{i}/groups"), render_groups(&rows));
             v.insert(format!("fab/{i}/vendor"), format!("{:#x} vvs#{:08x}", f.vendor_id(), fnv(f.vid_verification_statement())));
         }
         let bi = st.verif_basic_info();
@@ -146,7 +155,7 @@ fn view_of(matter: &Matter<'_>, networks: &Option<Vec<u8>>, network_ids: &[Vec<u
         v.insert("basic/loc_type".into(), format!("{:?}", bi.location_type));
         v.insert("basic/local_cfg_disabled".into(), format!("{}", bi.local_config_disabled));
         v.insert("basic/config_version".into(), format!("{}", bi.configuration_version));
-        Extra { resumption: st.resumption.iter().map(|r| (r.fab_idx.get(), r.peer_nodeid)).collect(), subs: Vec::new() }
+        Extra { groups: BTreeMap::new(), resumption: st.resumption.iter().map(|r| (r.fab_idx.get(), r.peer_nodeid)).collect(), subs: Vec::new() }
     });
     for (i, tlv) in fabric_tlvs(matter) {
         v.insert(format!("fab/{i}/tlv#"), format!("{:08x}/{}", fnv(&tlv), tlv.len()));
@@ -163,6 +172,7 @@ fn view_of(matter: &Matter<'_>, networks: &Option<Vec<u8>>, network_ids: &[Vec<u
 fn boot_view<CC: Crypto>(b: &Boot<'_, CC>) -> (View, Extra) {
     let s = b.snapshot();
     let (v, mut e) = view_of(b.matter, &s.networks, &s.network_ids, &b.basic_info_tlv());
+    e.groups = s.groups;
     e.subs = b.subscriptions();
     e.subs.sort();
     (v, e)
@@ -207,6 +217,16 @@ enum Op {
     KeySet { who: Who, id: u8, salt: u8 },
     KeySetRemove { who: Who, id: u8 },
     KeyMap { who: Who, n: u8, salt: u8 },
+    /// Groups::AddGroup on application endpoint `ep` (1..=4); `g` selects one of the group ids
+    /// the KeyMap operation provides key material for
+    Group { who: Who, ep: u8, g: u8, salt: u8, len: u8 },
+    GroupIfIdentifying { who: Who, ep: u8, g: u8, salt: u8, len: u8 },
+    GroupRemove { who: Who, ep: u8, g: u8 },
+    GroupRemoveAll { who: Who, ep: u8 },
+    /// Groups::ViewGroup (a read: what a peer sees must be what the view holds)
+    GroupView { who: Who, ep: u8, g: u8 },
+    /// Identify::Identify
+    Identify { who: Who, ep: u8, secs: u8 },
     Label { who: Who, salt: u8, len: u8 },
     NodeLabel { who: Who, salt: u8, len: u8 },
     Location { who: Who, salt: u8 },
@@ -238,8 +258,26 @@ fn admin_who() -> impl Strategy<Value = Who> {
     prop_oneof![4 => Just(Who::CaseA), 2 => Just(Who::CaseB), 3 => Just(Who::CaseNew)]
 }
 
+fn group_name_len() -> impl Strategy<Value = u8> {
+    prop_oneof![2 => 0u8..=16, 1 => Just(16u8), 1 => Just(0u8)]
+}
+
+/// Operations on the group table of one fabric (the group ids are those of `Op::KeyMap`).
+fn group_op() -> impl Strategy<Value = Op> {
+    let w = Who::CaseA;
+    prop_oneof![
+        6 => (1u8..=4, 0u8..6, 0u8..4, group_name_len()).prop_map(move |(ep, g, salt, len)| Op::Group { who: w, ep, g, salt, len }),
+        1 => (1u8..=4, 0u8..6, 0u8..4, group_name_len()).prop_map(move |(ep, g, salt, len)| Op::GroupIfIdentifying { who: w, ep, g, salt, len }),
+        1 => (1u8..=4, 0u8..3).prop_map(move |(ep, secs)| Op::Identify { who: w, ep, secs: secs * 30 }),
+        2 => (1u8..=4, 0u8..6).prop_map(move |(ep, g)| Op::GroupRemove { who: w, ep, g }),
+        1 => (1u8..=4).prop_map(move |ep| Op::GroupRemoveAll { who: w, ep }),
+        1 => (1u8..=4, 0u8..6).prop_map(move |(ep, g)| Op::GroupView { who: w, ep, g }),
+    ]
+}
+
 fn admin_op() -> impl Strategy<Value = Op> {
     prop_oneof![
+        2 => group_op(),
         4 => (admin_who(), 0u8..3, any::<u8>()).prop_map(|(who, extra, salt)| Op::Acl { who, extra, salt }),
         2 => (admin_who(), any::<u8>()).prop_map(|(who, salt)| Op::AclFull { who, salt }),
         3 => (admin_who(), 1u8..4, any::<u8>()).prop_map(|(who, id, salt)| Op::KeySet { who, id, salt }),
@@ -335,6 +373,38 @@ fn block() -> impl Strategy<Value = Vec<Op>> {
             2 => (1u8..3, any::<u8>()).prop_map(|(n, salt)| Op::KeyMap { who: Who::CaseA, n, salt }),
             1 => (any::<u8>(), 1u8..32).prop_map(|(salt, len)| Op::Label { who: Who::CaseA, salt, len }),
         ], 2..6)).prop_map(|(who, ops)| ops.iter().map(|o| rewho(o, who)).collect()),
+        // the group table of one fabric: key material first, then memberships (re-adding an
+        // existing membership with another name, several endpoints, more groups than fit)
+        4 => (admin_who(), any::<u8>(), prop::collection::vec(prop_oneof![
+            8 => group_op(),
+            1 => (1u8..3, any::<u8>()).prop_map(|(n, salt)| Op::KeyMap { who: Who::CaseA, n, salt }),
+            1 => (any::<u8>(), 1u8..32).prop_map(|(salt, len)| Op::Label { who: Who::CaseA, salt, len }),
+        ], 2..9)).prop_map(|(who, salt, ops)| {
+            let mut v = vec![Op::KeySet { who, id: 1, salt }, Op::KeyMap { who, n: 2, salt }];
+            v.extend(ops.iter().map(|o| rewho(o, who)));
+            v
+        }),
+        // ... filled to capacity: 4 groups (2 key map entries fit in one write), then a 5th
+        1 => (admin_who(), 0u8..4, group_name_len(), prop::collection::vec(group_op(), 0..4)).prop_map(|(who, salt, len, tail)| {
+            let mut v = vec![Op::KeySet { who, id: 1, salt }];
+            for (k, gs) in [(0u8, [0u8, 1]), (1, [2, 3]), (2, [4, 5])] {
+                v.push(Op::KeyMap { who, n: 2, salt: k });
+                for g in gs {
+                    v.push(Op::Group { who, ep: 1 + (g + salt) % 4, g, salt, len });
+                }
+            }
+            v.extend(tail.iter().map(|o| rewho(o, who)));
+            v
+        }),
+        // ... one group joined by more endpoints than a row holds, under varying names, then a write
+        1 => (admin_who(), 0u8..6, any::<u8>(), group_name_len(), prop::collection::vec(1u8..=4, 3..6), admin_op()).prop_map(|(who, g, salt, len, eps, then)| {
+            let mut v = vec![Op::KeySet { who, id: 1, salt }, Op::KeyMap { who, n: 2, salt: g / 2 }];
+            for (i, ep) in eps.iter().enumerate() {
+                v.push(Op::Group { who, ep: 1 + (*ep + i as u8) % 4, g, salt: (salt.wrapping_add(i as u8)) % 4, len });
+            }
+            v.push(rewho(&then, who));
+            v
+        }),
         2 => (admin_who(), 0u8..4).prop_map(|(who, target)| vec![Op::RemoveFabric { who, target }]),
         2 => (admin_who(), 500u16..900).prop_map(|(who, ms)| vec![Op::Handshake { who }, Op::Wait { ms }]),
         3 => (admin_who(), prop_oneof![1u8..4, 1u8..=24, Just(24u8)], any::<bool>(), any::<u8>()).prop_map(|(who, paths, keep, salt)| vec![Op::Subscribe { who, paths, keep, salt }]),
@@ -360,6 +430,12 @@ fn rewho(op: &Op, w: Who) -> Op {
         | Op::KeySet { who, .. }
         | Op::KeySetRemove { who, .. }
         | Op::KeyMap { who, .. }
+        | Op::Group { who, .. }
+        | Op::GroupIfIdentifying { who, .. }
+        | Op::GroupRemove { who, .. }
+        | Op::GroupRemoveAll { who, .. }
+        | Op::GroupView { who, .. }
+        | Op::Identify { who, .. }
         | Op::Label { who, .. }
         | Op::NodeLabel { who, .. }
         | Op::Location { who, .. }
@@ -388,6 +464,12 @@ fn op_who(op: &Op) -> Option<Who> {
         | Op::KeySet { who, .. }
         | Op::KeySetRemove { who, .. }
         | Op::KeyMap { who, .. }
+        | Op::Group { who, .. }
+        | Op::GroupIfIdentifying { who, .. }
+        | Op::GroupRemove { who, .. }
+        | Op::GroupRemoveAll { who, .. }
+        | Op::GroupView { who, .. }
+        | Op::Identify { who, .. }
         | Op::Label { who, .. }
         | Op::NodeLabel { who, .. }
         | Op::Location { who, .. }
@@ -617,6 +699,8 @@ fn acl_full(admin: u64, salt: u8) -> Vec<AclSpecFull> {
             AclTargetSpec { cluster: None, endpoint: None, device_type: Some(0x100 + salt as u32) },
             AclTargetSpec { cluster: Some(0x1F), endpoint: None, device_type: None },
         ];
+        // (the administrator's own entry stays unrestricted, so that the fabric can still be administered)
+        let targets = if e == 0 { vec![] } else { targets };
         v.push(AclSpecFull { privilege: if e == 0 { 5 } else { [1u8, 3, 4][(salt as usize + e as usize) % 3] }, auth_mode: 2, subjects, targets });
     }
     v
@@ -624,6 +708,15 @@ fn acl_full(admin: u64, salt: u8) -> Vec<AclSpecFull> {
 
 fn to_small(entries: &[AclSpecFull]) -> Vec<AclSpec> {
     entries.iter().map(|e| AclSpec { privilege: e.privilege, auth_mode: e.auth_mode, subjects: e.subjects.clone() }).collect()
+}
+
+/// (endpoint, group id) for RemoveGroup / ViewGroup: mostly an existing membership of the table
+/// (selected by `g` and `ep`), otherwise the raw endpoint and one of the known group ids.
+fn pick_membership(table: &[GroupRow], ep: u8, g: u8, ids: &[u16; 6]) -> (u16, u16) {
+    match table.get(g as usize % (table.len() + 1)) {
+        Some(r) if !r.endpoints.is_empty() => (r.endpoints[ep as usize % r.endpoints.len()], r.group_id),
+        _ => (ep as u16, ids[g as usize % 6]),
+    }
 }
 
 fn fabric_keys(view: &View, idx: u8) -> Vec<String> {
@@ -984,7 +1077,35 @@ fn run_segment<CC: Crypto>(
         // ---- the command and the effect it must have once acknowledged (outside a fail-safe)
         let mut effects: Vec<(String, Val)> = Vec::new();
         let mut contains: Vec<(String, String, bool)> = Vec::new(); // (key, needle, must contain)
+        let mut one_of: Vec<(String, Vec<Val>)> = Vec::new(); // (key, acceptable values)
+        let mut view_expect: Option<Option<String>> = None; // ViewGroup: the name a peer must be told (None = not a member)
         let mut state_changing = true;
+        // the group ids Op::KeyMap provides key material for
+        const GROUP_IDS: [u16; 6] = [1, 2, 17, 18, 33, 34];
+        let groups_before: Vec<GroupRow> = group_tables(b.matter).remove(&af).unwrap_or_default();
+        // the group table after AddGroup(ep, g, name) by the Groups cluster specification: a new
+        // row at the end, or the existing row renamed and the endpoint appended if it is not a member
+        let with_group = |ep: u16, g: u16, name: &str| -> Vec<GroupRow> {
+            let mut t = groups_before.clone();
+            match t.iter_mut().find(|r| r.group_id == g) {
+                Some(r) => {
+                    r.name = name.to_string();
+                    if !r.endpoints.contains(&ep) {
+                        r.endpoints.push(ep);
+                    }
+                }
+                None => t.push(GroupRow { group_id: g, name: name.to_string(), endpoints: vec![ep] }),
+            }
+            t
+        };
+        let without_group = |ep: u16, g: Option<u16>| -> Vec<GroupRow> {
+            let mut t = groups_before.clone();
+            for r in t.iter_mut().filter(|r| g.is_none() || g == Some(r.group_id)) {
+                r.endpoints.retain(|e| *e != ep);
+            }
+            t.retain(|r| !r.endpoints.is_empty());
+            t
+        };
         let cmd: Cmd = match &op {
             Op::Arm { secs, .. } => {
                 state_changing = false;
@@ -1055,6 +1176,36 @@ fn run_segment<CC: Crypto>(
                 effects.push((fab("keymap"), Some(format!("{entries:?}"))));
                 Cmd::WriteGroupKeyMap { entries }
             }
+            Op::Group { ep, g, salt, len, .. } => {
+                let (g, name) = (GROUP_IDS[*g as usize % 6], text_of(*salt, *len, 'G'));
+                effects.push((fab("groups"), Some(render_groups(&with_group(*ep as u16, g, &name)))));
+                Cmd::AddGroup { ep: *ep as u16, group: g, name }
+            }
+            Op::GroupIfIdentifying { ep, g, salt, len, .. } => {
+                let (g, name) = (GROUP_IDS[*g as usize % 6], text_of(*salt, *len, 'I'));
+                // takes effect only while the endpoint is identifying: both outcomes are fine
+                one_of.push((fab("groups"), vec![Some(render_groups(&groups_before)), Some(render_groups(&with_group(*ep as u16, g, &name)))]));
+                Cmd::AddGroupIfIdentifying { ep: *ep as u16, group: g, name }
+            }
+            Op::GroupRemove { ep, g, .. } => {
+                let (ep, g) = pick_membership(&groups_before, *ep, *g, &GROUP_IDS);
+                effects.push((fab("groups"), Some(render_groups(&without_group(ep, Some(g))))));
+                Cmd::RemoveGroup { ep, group: g }
+            }
+            Op::GroupRemoveAll { ep, .. } => {
+                effects.push((fab("groups"), Some(render_groups(&without_group(*ep as u16, None)))));
+                Cmd::RemoveAllGroups { ep: *ep as u16 }
+            }
+            Op::GroupView { ep, g, .. } => {
+                state_changing = false;
+                let (ep, g) = pick_membership(&groups_before, *ep, *g, &GROUP_IDS);
+                view_expect = Some(groups_before.iter().find(|r| r.group_id == g && r.endpoints.contains(&ep)).map(|r| r.name.clone()));
+                Cmd::ViewGroup { ep, group: g }
+            }
+            Op::Identify { ep, secs, .. } => {
+                state_changing = false;
+                Cmd::Identify { ep: *ep as u16, secs: *secs as u16 }
+            }
             Op::Label { salt, len, .. } => {
                 let l = text_of(*salt % 8, *len, 'L');
                 effects.push((fab("label"), Some(l.clone())));
@@ -1113,6 +1264,39 @@ fn run_segment<CC: Crypto>(
             eprintln!("[t={}] op #{op_no} {op:?} af={af} -> {} log[{begin}..{end}] armed {armed_before}->{armed_after}", clock::now(), out.brief());
         }
         p.labels.push(format!("{}:{}", name, if accepted { "acked" } else if out.answered() { "refused" } else { "no-answer" }));
+        if let (Op::Group { .. }, true) = (&op, accepted) {
+            let had = groups_before.iter().map(|r| r.group_id).collect::<Vec<_>>();
+            if let Cmd::AddGroup { ep, group, name } = &cmd {
+                match groups_before.iter().find(|r| r.group_id == *group) {
+                    Some(r) if r.endpoints.contains(ep) && r.name != *name => p.labels.push("group:re-added-with-another-name".into()),
+                    Some(r) if r.endpoints.contains(ep) => p.labels.push("group:re-added-same-name".into()),
+                    Some(_) => p.labels.push("group:another-endpoint-joined".into()),
+                    None => p.labels.push(format!("group:new-row-{}", had.len() + 1)),
+                }
+                if name.len() == 16 {
+                    p.labels.push("group:name-16-chars".into());
+                }
+            }
+        }
+        if let (Op::Group { .. }, false, Outcome::Response { code: 0x89, .. }) = (&op, accepted, &out) {
+            p.labels.push("group:table-full".into());
+        }
+        // what a peer is told by ViewGroup is what the view holds
+        if let (Some(expect), Outcome::Response { code, raw, .. }) = (&view_expect, &out) {
+            // (`raw` is the value part of the response struct: re-wrap it as an anonymous struct)
+            let mut wrapped = vec![0x15u8];
+            wrapped.extend_from_slice(raw);
+            wrapped.push(0x18);
+            let told = TLVElement::new(&wrapped).structure().and_then(|s| s.ctx(2)).and_then(|e| e.utf8()).ok().map(|n| n.to_string());
+            let ok = match expect {
+                Some(n) => *code == 0 && told.as_deref() == Some(n.as_str()),
+                None => *code != 0,
+            };
+            if !ok {
+                fail(p, "view-group-differs-from-table", format!("op #{op_no}: ViewGroup answered status {code:#x} name {told:?}; the group table holds {expect:?} for that endpoint and group"));
+                return;
+            }
+        }
 
         // ---- classify and update the model
         let now = clock::now();
@@ -1269,6 +1453,12 @@ fn run_segment<CC: Crypto>(
                         return;
                     }
                 }
+                for (k, vals) in &one_of {
+                    if !vals.contains(&after.get(k).cloned()) {
+                        fail(p, &format!("ack-without-effect:{name}"), format!("op #{op_no}: {name} was acknowledged, but {k} is {:?}, none of {vals:?}", after.get(k)));
+                        return;
+                    }
+                }
                 for (k, needle, must) in &contains {
                     let has = after.get(k).map(|v| v.contains(needle.as_str())).unwrap_or(false);
                     if has != *must {
@@ -1336,7 +1526,7 @@ fn check_history(case: &HistCase) -> Case {
     let fresh = {
         let none = vec![new_controller(case.seed, 0)];
         let cfg = BootCfg { seed: case.seed ^ 0xf4e5, net: netkind, resume: true, open_window_secs: None, sched: Sched::Fifo };
-        match boot(&cfg, &MemKv::new(), &net, &none[..0], |b| boot_view(b).0) {
+        match boot_app(&cfg, &BootOpts::default(), &MemKv::new(), &net, &none[..0], |b| boot_view(b).0) {
             Ok(v) => v,
             Err(e) => return Case::inconclusive(format!("fresh boot failed: {e}")),
         }
@@ -1379,7 +1569,7 @@ fn check_history(case: &HistCase) -> Case {
         }
         let cfg = BootCfg { seed: case.seed.wrapping_add(p.boot_no.wrapping_mul(0x9e37)), net: netkind, resume: true, open_window_secs: None, sched: Sched::Fifo };
         p.restart_pending = false;
-        let r = boot(&cfg, &kv, &net, &ctrls, |b| {
+        let r = boot_app(&cfg, &BootOpts::default(), &kv, &net, &ctrls, |b| {
             run_segment(b, case, &w, &mut m, &mut rec, &mut p, &ctrl_fab_idx, &ctrl_ab_idx);
             if p.verdict.is_none() && !p.restart_pending {
                 // let background writers (resumption flush, subscription table) finish
@@ -1446,6 +1636,13 @@ fn check_prefixes(case: &HistCase, kv: &MemKv, _net: &Net, rec: &Recording, mut 
             candidates.push(i + 1);
         }
     }
+    // ... and the end of every acknowledged operation that committed something: the store as of
+    // the acknowledgement must hold the change even if the operation wrote nothing at all
+    for o in rec.ops.iter().filter(|o| o.acked && o.committed_change) {
+        candidates.push(o.end);
+    }
+    candidates.sort();
+    candidates.dedup();
     for p in candidates {
         // ---- which acknowledgements precede this prefix
         let inflight = rec.ops.iter().find(|o| o.begin < p && p < o.end);
@@ -1497,7 +1694,7 @@ fn check_prefixes(case: &HistCase, kv: &MemKv, _net: &Net, rec: &Recording, mut 
         let cfg = BootCfg { seed: case.seed ^ 0xc4a5 ^ (p as u32) << 4, net: netkind, resume: true, open_window_secs: None, sched: Sched::Fifo };
         let pmap = map.clone();
         let pkv = MemKv::from_map(map);
-        let r = boot(&cfg, &pkv, &pnet, &none_ctrl[..0], |b| {
+        let r = boot_app(&cfg, &BootOpts::default(), &pkv, &pnet, &none_ctrl[..0], |b| {
             let mut subs = b.subscriptions();
             subs.sort();
             b.run_for(SEC);
@@ -2065,7 +2262,13 @@ fn fabric_rt_strategy() -> impl Strategy<Value = FabricCase> {
         prop_oneof![2 => prop::collection::vec(acl, 0..=4), 1 => prop::collection::vec(acl_full, 4..=4)],
         prop::collection::vec((1u16..0xFFFF, 0u8..2, prop::collection::vec((prop::collection::vec(any::<u8>(), 16), any::<u64>()), 1..=3)), 0..=2),
         prop::collection::vec((any::<u16>(), any::<u16>()), 0..=4),
-        prop::collection::vec((any::<u16>(), prop::collection::vec(any::<u16>(), 0..=3), utf8_up_to(16)), 0..=4),
+        prop_oneof![
+            2 => prop::collection::vec((any::<u16>(), prop::collection::vec(any::<u16>(), 0..=3), utf8_up_to(16)), 0..=4),
+            // the group table at capacity: 4 groups, 3 endpoints each, 16-byte names
+            1 => (any::<u16>(), any::<u16>(), prop::collection::vec(prop::collection::vec(prop::char::range('a', 'z'), 16..=16), 4..=4)).prop_map(|(g0, e0, names)| {
+                names.into_iter().enumerate().map(|(i, n)| (g0.wrapping_add(i as u16 * 7 + 1), (0..3u16).map(|j| e0.wrapping_add(j * 3 + i as u16)).collect(), n.into_iter().collect())).collect()
+            }),
+        ],
         prop::option::of(1u16..0xFFF5),
         prop::option::of(prop::collection::vec(any::<u8>(), 85)),
     )
@@ -2161,7 +2364,8 @@ fn check_fabric_rt(c: &FabricCase) -> Case {
         return Case::fail("roundtrip-fabric:differs", d.join("; "));
     }
     let full = c.acl.len() == 4 && c.acl.iter().all(|a| a.2.len() == 4 && a.3.len() == 3);
-    Case::pass(true).label(if full { "acl-at-capacity" } else { "acl-below-capacity" }).label(format!("tlv-bytes:{}00+", want_tlv.get(&idx.get()).map(|t| t.len() / 100).unwrap_or(0)))
+    let groups_full = group_tables(&node2).get(&idx.get()).map(|t| t.len() == 4 && t.iter().all(|r| r.endpoints.len() == 3 && r.name.len() == 16)).unwrap_or(false);
+    Case::pass(true).label(if full { "acl-at-capacity" } else { "acl-below-capacity" }).label(if groups_full { "groups-at-capacity" } else { "groups-below-capacity" }).label(format!("tlv-bytes:{}00+", want_tlv.get(&idx.get()).map(|t| t.len() / 100).unwrap_or(0)))
 }
 
 // ---- counters
@@ -2230,12 +2434,13 @@ fn main() {
     let mut run = Run::new(
         "C11",
         "fault_enumeration",
-        "histories of up to 40 administrative operations built from blocks (commissioning over PASE with 0-2 Wi-Fi networks, UpdateNOC, staged writes under a fail-safe ended by CommissioningComplete / ArmFailSafe(0) / expiry / restart, single ACL / ACL-at-capacity / key-set / key-map / fabric-label / node-label / location / local-config / regulatory writes outside a fail-safe, RemoveFabric of the own or another fabric, real CASE handshakes + waits that let the resumption cache be flushed, subscriptions with 1-24 paths, restarts, factory reset) perturbed by insert/delete/swap edits, on a Wi-Fi or Ethernet device with 0-2 pre-existing fabrics; EVERY prefix of the resulting store-operation log is booted. Non-trivial: at least one examined prefix ends strictly inside an operation that issued two or more store/remove operations, or directly after the acknowledgement of an operation that changed the persisted state (i.e. between that acknowledgement and the next write); distinct = distinct serialized history",
+        "histories of up to 40 administrative operations built from blocks (commissioning over PASE with 0-2 Wi-Fi networks, UpdateNOC, staged writes under a fail-safe ended by CommissioningComplete / ArmFailSafe(0) / expiry / restart, single ACL / ACL-at-capacity / key-set / key-map / group-table (AddGroup incl. re-adding a membership under another name, joining further endpoints, filling the table and a row beyond capacity, AddGroupIfIdentifying, RemoveGroup, RemoveAllGroups, ViewGroup on four application endpoints) / fabric-label / node-label / location / local-config / regulatory writes outside a fail-safe, RemoveFabric of the own or another fabric, real CASE handshakes + waits that let the resumption cache be flushed, subscriptions with 1-24 paths, restarts, factory reset) perturbed by insert/delete/swap edits, on a Wi-Fi or Ethernet device with 0-2 pre-existing fabrics; EVERY prefix of the resulting store-operation log is booted. Non-trivial: at least one examined prefix ends strictly inside an operation that issued two or more store/remove operations, or directly after the acknowledgement of an operation that changed the persisted state (i.e. between that acknowledgement and the next write); distinct = distinct serialized history",
     );
     run.assume("the KV store applies each store/remove atomically and in order (a crash leaves a prefix of the operation log); MemKv::materialize(prefix) is that model");
     run.assume("an operation whose success response reached the controller while no fail-safe was armed is committed; under a fail-safe, changes of the accessing fabric and network changes are committed by the acknowledged CommissioningComplete and discarded when the context ends otherwise (for writes to an existing fabric under its own fail-safe the statement is silent: old and new value are both accepted until the context ends)");
     run.assume("a prefix that ends inside an operation may show, per persisted component, the value from before or after that operation (the KvBlobStore interface has no multi-key transaction): in particular the network blob written by CommissioningComplete just before the fabric blob is accepted on its own; only changes of operations that were refused or rolled back in the full run must never be visible");
-    run.assume("the values of the committed components are taken from the device's memory at the acknowledgement (what a peer would read) and tied to the request contents by per-operation effect checks (label, ACL, key sets, key map, node label, location, networks, fabric identity)");
+    run.assume("the values of the committed components are taken from the device's memory at the acknowledgement (what a peer would read) and tied to the request contents by per-operation effect checks (label, ACL, key sets, key map, group table, node label, location, networks, fabric identity)");
+    run.assume("the device of crash-histories is admin::boot_app: root endpoint plus application endpoints 1-4 with Descriptor, Identify and Groups; the expected group table after AddGroup / RemoveGroup / RemoveAllGroups is computed from the table before the request by the Groups cluster specification (existing row renamed, endpoint appended; rows without endpoints dropped); AddGroupIfIdentifying may or may not take effect; the store is also examined at every committing acknowledgement that wrote nothing");
     run.assume("sessions are planted (ReservedSession) except for the Handshake operation, which runs a real CASE handshake; PASE sessions are planted without a commissioning window");
     run.assume("subscriptions are persisted best-effort (spec-optional): only 'what was written reads back' is required of them - every record in the subscription key range is resumed with its stored request bytes and nothing else is; the CASE resumption cache is a soft cache: it may lose records, but must never hold one of a fabric the restarted node does not have");
     run.assume("resumption-corruption: damaged blobs are at most KV_BUF_SIZE bytes long (a longer value is a store error, not a damaged blob); the E3 (libFuzzer) target of the design is replaced by proptest byte edits because a second target directory was not available");
